@@ -6,7 +6,7 @@ import re._constants as sre_c
 
 from . import tz as z3
 from . import sv
-from .sv import SInt, SBool, Sym, Unsupported, BoundExceeded, is_sym, mk_bool, mk_int, zint
+from .sv import SInt, SBool, Sym, Unsupported, BoundExceeded, is_sym, deep_sym, mk_bool, mk_int, zint
 
 
 class SStr(Sym):
@@ -735,6 +735,36 @@ def install(vm):
             return models.int_of_ascii(vm_, args[0].a, '<sym>')
         return old_int(vm_, args, kw)
     vm.models[id(int)] = m_int
+    import math
+
+    def dyadic_parts(x):
+        d = 2 ** x.k
+        return x.N / d, x.N % d, d          # floor quotient, remainder in [0, d)
+
+    def rounding(kind, native):
+        def model(vm_, args, kw):
+            x = args[0] if args else None
+            if isinstance(x, SDyadic) and len(args) == 1 and not kw:
+                if x.k == 0:
+                    return mk_int(x.N)
+                q, r, d = dyadic_parts(x)
+                if kind == 'floor':
+                    return mk_int(q)
+                if kind == 'ceil':
+                    return mk_int(q + z3.If(r > 0, 1, 0))
+                if kind == 'trunc':
+                    return dyadic_int(vm_, x)
+                return mk_int(q + z3.If(r > d // 2, 1, z3.If(r == d // 2, q % 2, 0)))      # round half to even
+            if isinstance(x, SInt) and len(args) == 1 and not kw:
+                return x
+            if deep_sym(list(args)) or deep_sym(kw):
+                raise Unsupported(f'call of {kind} with symbolic args')
+            return native(*args, **kw)
+        return model
+    vm.models[id(round)] = rounding('round', round)
+    vm.models[id(math.floor)] = rounding('floor', math.floor)
+    vm.models[id(math.ceil)] = rounding('ceil', math.ceil)
+    vm.models[id(math.trunc)] = rounding('trunc', math.trunc)
     old_isinstance = vm.models[id(isinstance)]
 
     def m_isinstance(vm_, args, kw):
